@@ -451,6 +451,21 @@ func (st *ccState) refused(c *ccCall) bool {
 	return true
 }
 
+// atTryBoundary: t is the instant at which one of c's tries ends (its write's end plus its wait).
+func (st *ccState) atTryBoundary(c *ccCall, t time.Duration) bool {
+	j := 0
+	for _, tx := range c.txs {
+		if tx.failed {
+			continue
+		}
+		if tx.doneT+st.cfg.T*time.Duration(int64(1)<<uint(j)) == t {
+			return true
+		}
+		j++
+	}
+	return false
+}
+
 // idContended: some other call used b's transaction id during b's life.
 func (st *ccState) idContended(b *ccCall) bool {
 	for _, c := range st.calls {
@@ -471,7 +486,11 @@ func (st *ccState) oracleRefusal(v *vio) {
 			if len(b.txs) > 0 && len(b.tries()) > 0 && false {
 				// a later try may be refused after earlier ones transmitted
 			}
-			if len(b.matches) > 0 && b.matches[len(b.matches)-1].verdict {
+			// (not at a try boundary: where the matcher runs in the receive loop, an acceptance
+			// falling on the instant a try's timer fires can lose against the timer, just as the
+			// unchanged tree's select may take the timer and never look at the datagram; the
+			// next try may then find the id taken)
+			if len(b.matches) > 0 && b.matches[len(b.matches)-1].verdict && !st.atTryBoundary(b, b.matches[len(b.matches)-1].doneT) {
 				v.add("R5-refused-after-accept", "call %d was refused after its matcher accepted a message", b.id)
 			}
 			// converse: somebody else must use the id during b's life
@@ -744,14 +763,27 @@ func (st *ccState) oracleRetry(v *vio) {
 		// every transmission: identical bytes, requested destination, exact offset
 		// Each wait is double the previous one and starts when the datagram has been
 		// handed to the socket (the write may take time: slow-write fault).
-		expEnd := c.invT
+		// Where a write takes time the statement can be read two ways and both are accepted:
+		// waits counted from the end of the previous write (the unchanged tree: its offsets then
+		// drift by the write times), or offsets 0, T, 3T, ... counted from the start of the call
+		// as the statement literally has them (a client that anchors its deadlines; a try whose
+		// deadline has passed when its write returns is over at once). On an instantaneous
+		// socket the two coincide.
+		// A third reading arms the wait when the write *begins* (wait j counted from the start
+		// of transmission j; again over at once if the write outlasts it).
+		expEnd, expEndAnch, expEndStart := c.invT, c.invT, c.invT
 		for j, tx := range c.txs {
-			want := c.invT
+			want, wantAnch, wantStart := c.invT, c.invT, c.invT
 			if j > 0 {
-				want = c.txs[j-1].doneT + cfg.T*time.Duration(int64(1)<<uint(j-1))
+				pv := c.txs[j-1]
+				want = pv.doneT + cfg.T*time.Duration(int64(1)<<uint(j-1))
+				wantAnch = maxDur(c.invT+cfg.T*time.Duration((int64(1)<<uint(j))-1), pv.doneT)
+				wantStart = maxDur(pv.t+cfg.T*time.Duration(int64(1)<<uint(j-1)), pv.doneT)
 			}
 			expEnd = tx.doneT + cfg.T*time.Duration(int64(1)<<uint(j))
-			if tx.t != want {
+			expEndAnch = maxDur(c.invT+cfg.T*time.Duration((int64(1)<<uint(j+1))-1), tx.doneT)
+			expEndStart = maxDur(tx.t+cfg.T*time.Duration(int64(1)<<uint(j)), tx.doneT)
+			if tx.t != want && tx.t != wantAnch && tx.t != wantStart {
 				v.add("S-offset", "call %d (T=%v tries=%d): transmission %d at +%v, want +%v (previous write returned at +%v)", c.id, cfg.T, cfg.tries, j+1, tx.t-c.invT, want-c.invT, want-c.invT-cfg.T*time.Duration(int64(1)<<uint(maxInt(j-1, 0))))
 			}
 			if !tx.sameBytes {
@@ -813,7 +845,7 @@ func (st *ccState) oracleRetry(v *vio) {
 			if len(c.txs) != cfg.tries {
 				v.add("S-count", "call %d (tries=%d): %d transmission(s)", c.id, cfg.tries, len(c.txs))
 			}
-			if c.retT != expEnd {
+			if c.retT != expEnd && c.retT != expEndAnch && c.retT != expEndStart {
 				v.add("S-total", "call %d (T=%v tries=%d): failed after %v, want exactly %v", c.id, cfg.T, cfg.tries, life, expEnd-c.invT)
 			}
 			if !p.IsNoResponse(c.err) {
